@@ -1147,9 +1147,11 @@ class Executor:
         )
         virtual_qubit_ids: Optional[List[Optional[int]]] = None
         if q_array_address is not None:
+            # A receive request that turns out to be of the measure type has no
+            # qubit IDs: its operand is a dummy register and need not name an array.
             q_array = self._app_arrays[app_id][q_array_address, :]
-            assert isinstance(q_array, list)
-            virtual_qubit_ids = list(q_array)
+            if isinstance(q_array, list):
+                virtual_qubit_ids = list(q_array)
         self._epr_recv_requests[remote_node_id, purpose_id].append(
             EprCmdData(
                 subroutine_id=subroutine_id,
